@@ -29,6 +29,24 @@ def canon_sequences(n_nodes, max_edges):
     return out
 
 
+def simple_sequences(n_nodes, max_edges, loops=False):
+    """connect sequences without repeated ordered pairs (and without self-loops unless asked), up to relabelling"""
+    out = []
+
+    def rec(seq, used, seen):
+        out.append(list(seq))
+        if len(seq) == max_edges:
+            return
+        for u in range(min(used + 1, n_nodes)):
+            uu = max(used, u + 1)
+            for v in range(min(uu + 1, n_nodes)):
+                if (u == v and not loops) or (u, v) in seen:
+                    continue
+                rec(seq + [(u, v)], max(uu, v + 1), seen | {(u, v)})
+    rec([], 0, frozenset())
+    return out
+
+
 def used_nodes(seq):
     return max([max(u, v) + 1 for u, v in seq], default=0)
 
@@ -94,6 +112,36 @@ def scenarios(flavour, n_nodes, max_edges, provenance=False):
                         'meta': {'op': op, 'u': u, 'v': v, 'seq': seq,
                                  'handle': hk if isinstance(hk, str) else hk[0]}}
                 yield (flavour, op), scen
+
+
+def hub_scenarios(flavour, n_edges=5, with_removal=False):
+    """pre-states in which node 0 has n_edges incident edges (every orientation, parallel edges, self-loops):
+    list lengths beyond the small-Vec sizes; optionally one removal before the operation under test"""
+    import itertools
+    kinds = [(0, 1), (1, 0), (0, 2), (2, 0), (0, 0)]
+    ops = [('isolate', 0, None), ('isolate', 1, None), ('disconnect', 0, 1), ('disconnect', 1, 0), ('disconnect', 0, 0),
+           ('connect', 0, 1), ('try_connect', 2, 0)]
+    for combo in itertools.product(range(len(kinds)), repeat=n_edges):
+        # edges to nodes 1 and 2 are interchangeable: canonical = first non-loop edge goes to node 1
+        first = next((kinds[c] for c in combo if kinds[c] != (0, 0)), None)
+        if first is not None and 2 in first:
+            continue
+        seq = [kinds[c] for c in combo]
+        pre = [['connect', u, v, {'s': f'e{j}'}] for j, (u, v) in enumerate(seq)]
+        pres = [pre]
+        if with_removal:
+            pres = [pre + [['disconnect', 0, 1]], pre + [['disconnect', 1, 0]], pre + [['isolate', 2]]]
+        for p in pres:
+            for (op, u, v) in ops:
+                if op == 'isolate':
+                    step = ['isolate', u]
+                elif op == 'disconnect':
+                    step = ['disconnect', u, v]
+                else:
+                    step = [op, u, v, {'s': 'enew'}]
+                yield (flavour, op), {'flavour': flavour, 'nodes': [[i, 100 + i] for i in range(3)],
+                                      'steps': p + [['dump'], step, ['dump']],
+                                      'meta': {'op': op, 'u': u, 'v': v, 'seq': seq, 'handle': 'orig', 'family': 'hub'}}
 
 
 # ------------------------------------------------------------------ invariants (C01 / C02)
@@ -291,9 +339,14 @@ def run(prop, tier, seed):
         items += [it for it in scenarios(fl, 4, n4_edges) if max([max(u, v) for u, v in it[1]['meta']['seq']] + [it[1]['meta']['u'], it[1]['meta']['v'] or 0]) == 3]
         if prop == 'C03':
             items += list(scenarios(fl, n_nodes, prov_edges, provenance=True))
+        # high-degree hub states (5 incident edges; thorough: 6, and with a removal before the operation)
+        items += list(hub_scenarios(fl, 5))
+        if tier != 'quick':
+            items += list(hub_scenarios(fl, 6))
+            items += list(hub_scenarios(fl, 5, with_removal=True))
     return scenario_check(
         prop, tier, seed, items, evaluate_ctx, sig_of,
-        bounds={'nodes': n_nodes, 'max_pre_state_edges': max_edges, 'four_node_states_max_edges': n4_edges, 'operations_per_history_step': 1,
+        bounds={'nodes': n_nodes, 'max_pre_state_edges': max_edges, 'four_node_states_max_edges': n4_edges, 'hub_states': 'node 0 with 5 incident edges of every orientation' + ('' if tier == 'quick' else '; also 6 edges, and 5 edges followed by one removal'), 'operations_per_history_step': 1,
                 'flavours': list(flavours), 'handle_provenance_sweep_max_edges': prov_edges if prop == 'C03' else 0,
                 'symbolic': 'all edge values (z3 Int), one fresh value for the operation',
                 'outside': 'more than 4 nodes, more pre-state edges, dropped neighbours'},
